@@ -15,4 +15,6 @@ def extras(tier, seed):
     from pyvc.bounded import run_bounded
 
     # the assembly loops of retrieve() / retrieve_stage() (result sets with ORDER BY) are outside the contracts: bounded stand-in
-    return [run_bounded("C19", "c19_store_retrieve.py", "C19/bounded/store-then-retrieve", tier, seed)]
+    return [run_bounded("C19", "c19_store_retrieve.py", "C19/bounded/store-then-retrieve", tier, seed),
+            # cross-check of the message round-trip contracts on the real queue table (nested values; both serialisers)
+            run_bounded("C19", "c19_messages.py", "C19/bounded/messages-through-the-queue", tier, seed)]
